@@ -8,7 +8,7 @@ SWITCH_OFF = 6        # every 6th case runs with xfab.CHECKS switched off (resul
 RULE = ("one unit per setting (237, by name); per case a conforming cell (oblique where the system allows), 1-4 atoms at general "
         "positions k/9973, at special positions from the rational grid {0,1/4,1/3,1/2,2/3,3/4}^3 or special in two coordinates, "
         "with symmulti = exact orbit size, shifted by lattice vectors; Uiso / site-symmetrised positive-definite Uani / no ADP; "
-        "dispersion table present (entries [f',f''] or None) or absent; three hkl in [-6,6]^3 plus 000. Oracle: direct sum over the "
+        "dispersion table present (entries [f',f''] or None) or absent; three hkl in [-6,6]^3 (one case in four [-18,18]^3; one case in eight a 40x larger cell with indices in [-200,200]^3) plus 000. Oracle: direct sum over the "
         "distinct images of every site of occ (f(s)+f'+if'') T exp(2 pi i h.r) with s from the metric tensor, f from the nine "
         "coefficients; metamorphic corollaries (lattice shift, linearity in occupancy, Uiso == equivalent Uani, F(000)). "
         "Non-trivial = a special position with non-trivial stabiliser, or dispersion with f'' != 0, or an oblique cell")
